@@ -35,47 +35,162 @@ func ruleStepFraming(c *core.Ctx) {
 		c.Undecided(rule, "anchor/cpp/binary.writeStepRw", 0, "anchor not found")
 		return
 	}
-	want := map[string]string{
-		"!(isStream)":                       "%s(stream_, %s);\n",
-		"isStream ∧ write ∧ isPlural":       "%s(stream_, %s);\n",
-		"isStream ∧ write ∧ !(isPlural)":    "yardl::binary::WriteBlock<%s, %s>(stream_, %s);\n",
-		"isStream ∧ !(write) ∧ isPlural":    "yardl::binary::ReadBlocksIntoVector<%s, %s>(stream_, current_block_remaining_, %s);\n",
-		"isStream ∧ !(write) ∧ !(isPlural)": "read_block_successful = yardl::binary::ReadBlock<%s, %s>(stream_, current_block_remaining_, %s);\n",
+	// the pairing table as a function of the three flags; the generator's table is evaluated for
+	// each of the eight assignments, so that it does not matter how the tests are nested, ordered
+	// or combined (`if write { if isPlural`, a tagless switch, `case write && isPlural`, ...)
+	type cell struct {
+		tmpl string
+		elem string // what the element routine is instantiated with
 	}
-	got := map[string]gee.Row{}
-	for _, r := range rows {
-		if r.Kind == "emit" {
-			got[guardKey(r)] = r
+	prescribed := func(isStream, write, isPlural bool) cell {
+		switch {
+		case !isStream:
+			return cell{"%s(stream_, %s);\n", "step"}
+		case write && isPlural:
+			return cell{"%s(stream_, %s);\n", "vector"}
+		case write:
+			return cell{"yardl::binary::WriteBlock<%s, %s>(stream_, %s);\n", "step"}
+		case isPlural:
+			return cell{"yardl::binary::ReadBlocksIntoVector<%s, %s>(stream_, current_block_remaining_, %s);\n", "scalar"}
+		default:
+			return cell{"read_block_successful = yardl::binary::ReadBlock<%s, %s>(stream_, current_block_remaining_, %s);\n", "step"}
 		}
 	}
-	for k, w := range want {
-		r, ok := got[k]
-		key := "writeStepRw/[" + k + "]"
-		if !ok {
-			c.Bad(rule, key, d.Pos(), "no emission under this combination of isStream/write/isPlural")
-			continue
-		}
-		c.Check(r.Tmpl == w, rule, key+"/routine", r.Pos, strings.TrimSpace(r.Tmpl), fmt.Sprintf("emits %q, the pairing table prescribes %q", r.Tmpl, w))
-		// the element routine argument is typeRwFunction(<step type>, write)
-		okElem := false
-		for _, a := range r.Args {
-			if strings.HasPrefix(a, "typeRwFunction(") && strings.HasSuffix(a, ", write)") {
-				okElem = true
+	src := nodeSrcDeep(c, d, 2)
+	for _, isStream := range []bool{false, true} {
+		for _, write := range []bool{true, false} {
+			for _, isPlural := range []bool{true, false} {
+				asg := map[string]bool{"isStream": isStream, "write": write, "isPlural": isPlural}
+				key := fmt.Sprintf("writeStepRw/[isStream=%v write=%v isPlural=%v]", isStream, write, isPlural)
+				var hit []gee.Row
+				undecided := ""
+				for _, r := range rows {
+					if r.Kind != "emit" {
+						continue
+					}
+					sat, unknown := evalGuards(r.Guards, asg)
+					if len(unknown) > 0 {
+						undecided = strings.Join(unknown, ", ")
+						continue
+					}
+					if sat {
+						hit = append(hit, r)
+					}
+				}
+				want := prescribed(isStream, write, isPlural)
+				switch {
+				case undecided != "":
+					c.Undecided(rule, key, d.Pos(), "an emission depends on a condition other than isStream/write/isPlural: "+undecided)
+				case len(hit) != 1:
+					c.Bad(rule, key, d.Pos(), fmt.Sprintf("%d emissions for this combination of isStream/write/isPlural (expected exactly one)", len(hit)))
+				default:
+					r := hit[0]
+					c.Check(r.Tmpl == want.tmpl, rule, key+"/routine", r.Pos, strings.TrimSpace(r.Tmpl), fmt.Sprintf("emits %q, the pairing table prescribes %q", r.Tmpl, want.tmpl))
+					// the element routine argument is typeRwFunction(<type>, write)
+					elemArg := ""
+					for _, a := range r.Args {
+						if strings.HasPrefix(a, "typeRwFunction(") && strings.HasSuffix(a, ", write)") {
+							elemArg = a
+						}
+					}
+					okElem := elemArg != ""
+					why := "the framing routine is not instantiated with typeRwFunction(<type>, write)"
+					if okElem {
+						switch want.elem {
+						case "scalar":
+							okElem = strings.Contains(elemArg, ".ToScalar()") || strings.Contains(src, ".ToScalar()")
+							why = "ReadBlocksIntoVector must be instantiated with the routine of the scalar item type (ToScalar())"
+						case "vector":
+							okElem = strings.Contains(src, "Dimensionality = &dsl.Vector{}")
+							why = "the batch write no longer rewrites the step type to an unbounded vector: the block has no item count"
+						}
+					}
+					c.Check(okElem, rule, key+"/element routine", r.Pos, "element routine = typeRwFunction("+want.elem+" type, write)", why)
+				}
 			}
 		}
-		c.Check(okElem, rule, key+"/element routine", r.Pos, "element routine = typeRwFunction(stepType, write)", "the framing routine is not instantiated with typeRwFunction(stepType, write)")
 	}
-	for k := range got {
-		if _, ok := want[k]; !ok {
-			c.Bad(rule, "writeStepRw/["+k+"]/unexpected", got[k].Pos, "emission under a combination the pairing table does not know: "+got[k].Tmpl)
+	_ = info
+}
+
+// evalGuards evaluates a conjunction of guard literals (`a`, `!(a)`) under an assignment of the
+// atoms; atoms without a value are returned as unknown.
+func evalGuards(guards []string, asg map[string]bool) (bool, []string) {
+	sat := true
+	var unknown []string
+	for _, g := range guards {
+		atom, neg := g, false
+		if strings.HasPrefix(g, "!(") && strings.HasSuffix(g, ")") {
+			atom, neg = g[2:len(g)-1], true
+		}
+		v, ok := asg[atom]
+		if !ok {
+			// conjunctions / disjunctions of known atoms
+			if val, known := evalBoolText(atom, asg); known {
+				v, ok = val, true
+			}
+		}
+		if !ok {
+			unknown = append(unknown, atom)
+			continue
+		}
+		if v == neg {
+			sat = false
 		}
 	}
-	// batch write turns the step type into an unbounded vector (length prefix = block count);
-	// batch read instantiates the element routine with the scalar item type
-	src := nodeSrc(c, d)
-	c.Check(strings.Contains(src, "Dimensionality = &dsl.Vector{}"), rule, "writeStepRw/batch write is a length-prefixed vector", d.Pos(), "the batch is written as `!vector` of the items (count, then items)", "the batch write no longer rewrites the step type to an unbounded vector: the block has no item count")
-	c.Check(strings.Contains(src, ".ToScalar()"), rule, "writeStepRw/batch read uses the item type", d.Pos(), "ReadBlocksIntoVector is instantiated with the scalar item type", "the batch read no longer reduces the stream type to its item type")
-	_ = info
+	if !sat {
+		return false, nil // a falsified literal decides the row whatever the unknown atoms are
+	}
+	return sat, unknown
+}
+
+func evalBoolText(e string, asg map[string]bool) (bool, bool) {
+	e = strings.TrimSpace(e)
+	if parts := strings.Split(e, " || "); len(parts) > 1 {
+		res, known := false, true
+		for _, p := range parts {
+			v, k := evalBoolText(p, asg)
+			if k && v {
+				return true, true
+			}
+			known = known && k
+		}
+		return res, known
+	}
+	if parts := strings.Split(e, " && "); len(parts) > 1 {
+		res, known := true, true
+		for _, p := range parts {
+			v, k := evalBoolText(p, asg)
+			if k && !v {
+				return false, true
+			}
+			known = known && k
+		}
+		return res, known
+	}
+	if strings.HasPrefix(e, "!") {
+		v, k := evalBoolText(strings.Trim(e[1:], "()"), asg)
+		return !v, k
+	}
+	v, ok := asg[e]
+	return v, ok
+}
+
+// nodeSrcDeep: assignments of d and of the same-package functions it calls (to the given depth).
+func nodeSrcDeep(c *core.Ctx, d *ast.FuncDecl, depth int) string {
+	out := nodeSrc(c, d)
+	if depth == 0 {
+		return out
+	}
+	p := c.DeclPkg(d)
+	for _, cs := range c.Calls(d) {
+		if cs.Callee != nil && p != nil && cs.Callee.Pkg() == p.Types {
+			if cd := c.Decl(cs.Callee); cd != nil && cd != d {
+				out += nodeSrcDeep(c, cd, depth-1)
+			}
+		}
+	}
+	return out
 }
 
 func nodeSrc(c *core.Ctx, d *ast.FuncDecl) string {
